@@ -159,6 +159,59 @@ func H_C14_conversion() {
 	vfAssert(len(gotTail) == 2 && gotTail[0] == float64(n) && (gotTail[1] == fv || fv != fv), "variadic tail converted element-wise")
 }
 
+type c14Level int
+type c14Name string
+
+// H_C14_namedTypes: a value of a defined type (type Level int, type Name string) given to
+// a function whose parameter has the underlying type (same kind, not assignable) is
+// converted in every surface form - plain, piped, piped with arguments, prefix colon, slot
+// - and all forms agree with the plain call; a pointer to the wrong struct type is an
+// error (never a panic) in every form.
+//
+//gosym:reach rendered,rejected
+func H_C14_namedTypes() {
+	lv := c14Level(ndInt("lv"))
+	nm := c14Name(ndString("nm", 1))
+	forms := [][2]string{
+		{`{{ lvl | describe }}`, `{{ describe(lvl) }}`},
+		{`{{ lvl | describe() }}`, `{{ describe(lvl) }}`},
+		{`{{ lvl | pair("a") }}`, `{{ pair(lvl, "a") }}`},
+		{`{{ lvl | pair: "a" }}`, `{{ pair(lvl, "a") }}`},
+		{`{{ "a" | pairR(_, lvl) }}`, `{{ pairR("a", lvl) }}`},
+		{`{{ who | up }}`, `{{ up(who) }}`},
+		{`{{ who | up | rep: 2 }}`, `{{ rep(up(who), 2) }}`},
+		{`{{ who | rep(2) }}`, `{{ rep(who, 2) }}`},
+		{`{{ describe: lvl }}`, `{{ describe(lvl) }}`},
+		{`{{ pa | takesB }}`, `{{ takesB(pa) }}`},
+	}
+	f := ndChoice("form", len(forms))
+	mk := func() VarMap {
+		vars := make(VarMap)
+		vars.Set("lvl", lv)
+		vars.Set("who", nm)
+		vars.Set("pa", &c14Recv{"a"})
+		vars.Set("describe", func(i int) string { return "L" + ndItoa(i&7) })
+		vars.Set("pair", func(i int, s string) string { return "P" + ndItoa(i&7) + s })
+		vars.Set("pairR", func(s string, i int) string { return "R" + s + ndItoa(i&7) })
+		vars.Set("up", func(s string) string { return "U" + s })
+		vars.Set("rep", func(s string, n int) string { return s + "x" + ndItoa(n) })
+		vars.Set("takesB", func(p *c06Inner) string { return "B" })
+		return vars
+	}
+	set := hxSet([]Option{WithSafeWriter(nil)}, "/s.jet", forms[f][0], "/p.jet", forms[f][1])
+	o1, e1 := hxExec(set, "/s.jet", mk(), nil)
+	o2, e2 := hxExec(set, "/p.jet", mk(), nil)
+	if f == len(forms)-1 {
+		vfReach("rejected")
+		vfAssert(e1 != nil && e2 != nil, "an argument that cannot be converted is an error in every form")
+		return
+	}
+	vfReach("rendered")
+	vfAssert(e1 == nil && e2 == nil, "a value of a defined type is converted to the parameter's underlying type in every form")
+	vfNote(o1)
+	vfAssert(o1 == o2, "the surface form is equivalent to the plain call")
+}
+
 // H_C14_once: a pipeline is evaluated left to right and calls each stage exactly once;
 // when a stage fails (symbolic position) the earlier ones ran once and the later ones not
 // at all.
